@@ -42,6 +42,9 @@ type Up4Gen struct {
 	ForceSessQer bool
 	OneFlow      bool
 	PeerBase     int // the generator's peers are p<PeerBase+1>..
+	// UsePfd: the application filters are provisioned as PFDs (one application per filter, one description per
+	// direction) when a peer associates, and half of the flows name the application ID instead of carrying the filter
+	UsePfd       bool
 	MinFlows     int  // at least this many flows per session
 	AlwaysQer    bool // every flow has a QER of its own
 	SessionOnly  bool
@@ -49,6 +52,7 @@ type Up4Gen struct {
 }
 
 type uflow struct {
+	byApp        bool // the PDRs name the provisioned application instead of carrying the filter
 	ul, dl       uint16
 	ulFar, dlFar uint32
 	qer    uint32 // 0 = none
@@ -222,6 +226,28 @@ func (g *Up4Gen) FreshGnbs() {
 	}
 }
 
+// Provision sends the PFD table of the generator's application filters to the peer's association: application
+// "app<k>" for filter k, with one description for each direction (uplink packets go to the application, downlink
+// packets come from it).
+func (g *Up4Gen) Provision(peer string) {
+	var apps []App
+
+	for k, f := range g.flows {
+		out := *f
+		out.Dir = "out"
+		out.Src, out.Dst = pfcpx.FlowEP{Kind: "any", Ports: "none"}, f.Src // towards the application
+
+		in := *f
+		in.Dir = "in"
+		in.Src, in.Dst = f.Src, pfcpx.FlowEP{Kind: "any", Ports: "none"} // from the application
+
+		apps = append(apps, App{ID: fmt.Sprintf("app%d", k), Flows: []pfcpx.Flow{out, in}})
+	}
+
+	g.W.Pfd(peer, apps)
+	g.Stats["pfd"]++
+}
+
 // MarkAssoc tells the generator that the peer is associated already.
 func (g *Up4Gen) MarkAssoc(peer string) { g.assoc[peer] = true }
 
@@ -324,6 +350,8 @@ func (g *Up4Gen) newFlow(s *usess, first bool) *uflow {
 		f.flow = g.R.Intn(len(g.flows))
 	}
 
+	f.byApp = g.UsePfd && g.R.Intn(2) == 0
+
 	if g.R.Intn(5) > 0 || g.AlwaysQer {
 		f.qer = s.nextQer
 		s.nextQer++
@@ -348,12 +376,17 @@ func (g *Up4Gen) pdrs(s *usess, f *uflow, inMod bool) (pfcpx.PDR, pfcpx.PDR) {
 		fl = g.flows[f.flow]
 	}
 
+	app := ""
+	if g.UsePfd && f.flow >= 0 && f.byApp {
+		app, fl = fmt.Sprintf("app%d", f.flow), nil
+	}
+
 	ue := "explicit"
 	if s.ue == 0 {
 		ue = "alloc"
 	}
 
-	ul := pfcpx.PDR{ID: f.ul, Prec: f.prec, Src: "access", UE: ue, UEIP: s.ue, SDF: fl, OHR: true, FAR: f.ulFar, QERs: qers}
+	ul := pfcpx.PDR{ID: f.ul, Prec: f.prec, Src: "access", UE: ue, UEIP: s.ue, SDF: fl, AppID: app, OHR: true, FAR: f.ulFar, QERs: qers}
 
 	switch {
 	case s.chooseTeid && !inMod:
@@ -370,7 +403,7 @@ func (g *Up4Gen) pdrs(s *usess, f *uflow, inMod bool) (pfcpx.PDR, pfcpx.PDR) {
 		ul.FTEID, ul.TunIP, ul.TEID = "explicit", g.W.AccessIP, t
 	}
 
-	dl := pfcpx.PDR{ID: f.dl, Prec: f.prec, Src: "core", FTEID: "none", UE: ue, UEIP: s.ue, SDF: fl, FAR: f.dlFar, QERs: qers}
+	dl := pfcpx.PDR{ID: f.dl, Prec: f.prec, Src: "core", FTEID: "none", UE: ue, UEIP: s.ue, SDF: fl, AppID: app, FAR: f.dlFar, QERs: qers}
 
 	return ul, dl
 }
@@ -627,6 +660,10 @@ func (g *Up4Gen) Step() bool {
 	if !g.assoc[peer] {
 		if accepted(w.Assoc(peer)) {
 			g.assoc[peer] = true
+
+			if g.UsePfd {
+				g.Provision(peer)
+			}
 		}
 
 		return !w.Died
